@@ -44,7 +44,7 @@ func genValue(r *rand.Rand) string {
 	case 1:
 		return "M" + strings.Repeat("w", 100+r.Intn(60)) // > 100 bytes: truncated + "..."
 	case 2:
-		return strings.Repeat("é", 49) + "abéé" // the cut at byte 100 falls inside a rune
+		return strings.Repeat("é", 49) + "a" + pick(r, []string{"éé", "名前", "𝒳x", "☃☃"}) // the cut at byte 100 falls inside a rune
 	}
 	return pick(r, valuesAny)
 }
